@@ -9,6 +9,7 @@ import (
 	"os"
 	"sort"
 	"testing"
+	"time"
 )
 
 type c04Input struct {
@@ -16,6 +17,38 @@ type c04Input struct {
 	Steps int  `json:"steps"`
 	File  bool `json:"file"`
 }
+
+// an in-memory StoreFile (nothing is left behind in the file system, whatever happens to the run)
+type c04MemFile struct{ b []byte }
+
+func (f *c04MemFile) ReadAt(p []byte, off int64) (int, error) {
+	if off < 0 || off >= int64(len(f.b)) {
+		return 0, fmt.Errorf("EOF")
+	}
+	n := copy(p, f.b[off:])
+	if n < len(p) {
+		return n, fmt.Errorf("EOF")
+	}
+	return n, nil
+}
+func (f *c04MemFile) WriteAt(p []byte, off int64) (int, error) {
+	if need := int(off) + len(p); need > len(f.b) {
+		f.b = append(f.b, make([]byte, need-len(f.b))...)
+	}
+	copy(f.b[off:], p)
+	return len(p), nil
+}
+func (f *c04MemFile) Truncate(n int64) error     { f.b = f.b[:n]; return nil }
+func (f *c04MemFile) Stat() (os.FileInfo, error) { return c04Info{int64(len(f.b))}, nil }
+
+type c04Info struct{ n int64 }
+
+func (i c04Info) Name() string       { return "c04" }
+func (i c04Info) Size() int64        { return i.n }
+func (i c04Info) Mode() os.FileMode  { return 0600 }
+func (i c04Info) ModTime() time.Time { return time.Time{} }
+func (i c04Info) IsDir() bool        { return false }
+func (i c04Info) Sys() interface{}   { return nil }
 
 type c04Handle struct {
 	st    *Store
@@ -78,13 +111,7 @@ func c04Run(in c04Input) (what string) {
 	}()
 	var sf StoreFile
 	if in.File {
-		f, err := os.CreateTemp("", "c04bounded")
-		if err != nil {
-			return err.Error()
-		}
-		defer os.Remove(f.Name())
-		defer f.Close()
-		sf = f
+		sf = &c04MemFile{}
 	}
 	s, err := NewStore(sf)
 	if err != nil {
